@@ -143,7 +143,7 @@ def gen_call(rng):
 
 def workload(ctx):
     rng = ctx.rng(1)
-    for i in range(ctx.n(400, 5000)):
+    for i in range(ctx.n(400, 30000)):
         steps = []
         for _ in range(int(rng.integers(12, 25))):
             if rng.random() < 0.4:
